@@ -282,6 +282,10 @@ def run(ctx):
     # a stale (empty) budget turns the sentence into a task in the enum parser only (seeds c01-b/c, c15-d)
     import c01 as _c01, tables as _tables
     _c01.x_conflict(ctx, _tables.Tables(ctx))
+    # parse_multi reuses one state: a budget slot surviving reset_to turns the next sentence into a task (seed c15-f; defect D4)
+    import c08 as _c08
+    _c08.rule_S_RESET(ctx)
+    _c08.rule_S_FIELDS(ctx)
     ctx.undecided = ["kind(parse(format(v))) = kind(v) for every value (runs into value-dependent parsing, see C01)"]
     ctx.assumptions = ["Vec::is_empty / matches! semantics of std"]
     ctx.trusted = ["rustc HIR/MIR", "mirfacts driver", "python rule layer"]
